@@ -356,6 +356,13 @@ func execConv(a []string) (string, string) {
 		kind = "other:" + rv.Type().Name()
 	}
 
+	// warm-up reads (sixth argument: raw bytes, hex): the measured Read is then the reader's (k+1)-th — a reader must
+	// convert its hundredth reading as it converts its first
+	if len(a) >= 6 {
+		for _, w := range unhx(a[5]) {
+			c15Read(rd, 0, []byte{w, 0x40, 0xc0})
+		}
+	}
 	val, rerr, reqs := c15Read(rd, cc, data)
 	var valS string
 	switch {
@@ -494,6 +501,14 @@ func genConv(g *genCtx) {
 			nt = cls == 'P' && sp.lin < 12 && sp.fmtCode != 3 && fl&0x20 == 0 && fl&0x40 != 0 && len(more) == 0
 		}
 		g.emit(Op{Class: cls, NonTrivial: nt, Kind: "conv", Args: append([]string{hx(body), itoa(raw), itoa(fl)}, more...)})
+		// one op in six again with 3…7 warm-up reads of other raw values first (the reader's later reads)
+		if len(more) == 0 && rng.Intn(6) == 0 {
+			w := rbytes(rng, 3+rng.Intn(5))
+			if rng.Intn(3) == 0 {
+				w[rng.Intn(len(w))] = byte(raw)
+			}
+			g.emit(Op{Class: cls, NonTrivial: nt, Kind: "conv", Args: []string{hx(body), itoa(raw), itoa(fl), "0", "c0", hx(w)}})
+		}
 	}
 	valid := func() int { return 0x40 | rng.Intn(2)<<7 | rng.Intn(32) } // scanning enabled, reading available; the other bits free
 	rnd10 := func() int { return rng.Intn(1024) - 512 }
